@@ -134,7 +134,7 @@ func C11(rep *ev.Reporter, tier string) {
 		}
 		for wi, mkw := range worlds {
 			atomic.AddInt64(&states, 1)
-			nperm := len(hx.Perms(len(c.rules)))
+			nperm := hx.NPerms(len(c.rules))
 			for ch := 0; ch < nperm; ch++ {
 				caseID := fmt.Sprintf("%s#w%d#%d", c.id, wi, ch)
 				if rep.ReplayFilter != "" && rep.ReplayFilter != caseID {
